@@ -241,6 +241,31 @@ func retLeLen(b *core.Bounds, v ssa.Value, param ssa.Value, at ssa.Instruction) 
 			if s, ok := b.Summaries[core.CalleeName(c)]; ok && s.Ret == x.Index {
 				return sliceOf(core.Arg(c, s.Param), param)
 			}
+			// the tail of the function moved into a helper analysed as part of it: every successful return of the helper yields a
+			// count within the helper's own input, and that input is (a tail of) ours
+			if h := core.AbsorbedCallee(c); h != nil {
+				n := 0
+				for _, r := range core.ReturnsOf(h) {
+					if x.Index >= len(r.Results) || core.ReturnsNonNilError(r) {
+						continue
+					}
+					hv := core.RetVal(r, x.Index)
+					if k, isK := core.ConstInt(hv); isK && k <= 0 {
+						continue
+					}
+					okRet := false
+					for pi, hp := range h.Params {
+						if pi < len(c.Call.Args) && sliceOf(c.Call.Args[pi], param) && retLeLen(core.NewBounds(b.P, h, b.Summaries), hv, hp, r) {
+							okRet = true
+						}
+					}
+					if !okRet {
+						return false
+					}
+					n++
+				}
+				return n > 0
+			}
 		}
 	}
 	return false
